@@ -196,6 +196,64 @@ func genStream(r *hlib.Rand) []byte {
 
 var connBudget = 6
 
+// delivery patterns: the sizes (cycling) of the pieces in which a stream reaches the reader
+func delivery(r *hlib.Rand, total int) string {
+	small := []string{"1", "2.3", "7", "1.13", "5.1.1", "3.4093", "1.4095", "16"}
+	big := []string{"4095", "4096", "4097", "4096.1", "1500", "100.4000", "4090.3.3", "1448", "8192", "4095.4097", "600"}
+	if total <= 1500 && r.Chance(60) {
+		return hlib.Pick(r, small)
+	}
+	if r.Chance(20) && total > 2 {
+		// one cut at a random position, the rest in one piece
+		return strconv.Itoa(1+r.Intn(total-1)) + "." + strconv.Itoa(total)
+	}
+	return hlib.Pick(r, big)
+}
+
+func echoCmd(arg []byte) []byte { return encodeArray([][]byte{[]byte("ECHO"), arg}) }
+
+// genChunkStream: well-formed ECHO/PING traffic that is not fully buffered when its parsing starts
+func genChunkStream(r *hlib.Rand, tier string) []byte {
+	var b []byte
+	switch x := r.Intn(100); {
+	case x < 25:
+		// a small command, to be cut inside its header / between arguments / inside a bulk
+		for i, n := 0, 1+r.Intn(3); i < n; i++ {
+			b = append(b, echoCmd([]byte(hlib.Pick(r, wordPool)))...)
+		}
+	case x < 55:
+		// small early arguments, a big last one
+		b = append(b, echoCmd(filler(hlib.Pick(r, []int{4000, 4080, 4096, 6000, 9000, 70000}), r.Intn(26)))...)
+		b = append(b, "PING\r\n"...)
+	case x < 96:
+		// a pipeline of small commands longer than the 4 KiB buffer
+		for i, n := 0, 170+r.Intn(200); i < n; i++ {
+			b = append(b, echoCmd([]byte(fmt.Sprintf("%s-%d", hlib.Pick(r, wordPool), i)))...)
+			if i%17 == 0 {
+				b = append(b, "PING\r\n"...)
+			}
+		}
+	default:
+		// … and longer than 64 KiB
+		for i, n := 0, 3500+r.Intn(1000); i < n; i++ {
+			b = append(b, echoCmd([]byte(fmt.Sprintf("v%d", i)))...)
+		}
+	}
+	return b
+}
+
+// big frames that are only parsed (not executed): SET k <6000 bytes>, MSET with many pairs
+func genBigFrame(r *hlib.Rand) []byte {
+	if r.Bool() {
+		return encodeArray([][]byte{[]byte("SET"), []byte("big"), filler(6000, r.Intn(26))})
+	}
+	args := [][]byte{[]byte("MSET")}
+	for i, n := 0, 40+r.Intn(60); i < n; i++ {
+		args = append(args, []byte(fmt.Sprintf("key%d", i)), filler(40+r.Intn(40), i))
+	}
+	return encodeArray(args)
+}
+
 // total line lengths (CR LF included) around the sizes of bufio's buffers
 var lineLens = []int{4094, 4095, 4096, 4097, 4098, 4099, 5000, 8191, 8192, 8193, 65535, 65536, 65537}
 
@@ -281,7 +339,12 @@ func genZero(r *hlib.Rand) string {
 func genC31(r *hlib.Rand, tier string) []string {
 	var ops []string
 	for i, n := 0, 1+r.Intn(3); i < n; i++ {
-		ops = append(ops, "parse "+hlib.Hex(genStream(r)))
+		b := genStream(r)
+		if len(b) > 1 && r.Chance(35) {
+			ops = append(ops, "parse "+hlib.Hex(b)+" "+delivery(r, len(b)))
+		} else {
+			ops = append(ops, "parse "+hlib.Hex(b))
+		}
 	}
 	if r.Bool() {
 		ops = append(ops, genZero(r))
@@ -290,6 +353,15 @@ func genC31(r *hlib.Rand, tier string) []string {
 		// lines longer than bufio's buffer: through parseRESP and through the real server
 		b := genLongLines(r)
 		ops = append(ops, "parse "+hlib.Hex(b), "echo "+hlib.Hex(b))
+	}
+	if r.Chance(22) {
+		// the same bytes whatever the pieces they arrive in: parseRESP behind its 4096-byte bufio.Reader
+		// over a reader that delivers chosen pieces, and the real server over TCP written in those pieces
+		b := genChunkStream(r, tier)
+		d := delivery(r, len(b))
+		ops = append(ops, "parse "+hlib.Hex(b)+" "+d, "echo "+hlib.Hex(b)+" "+d)
+		g := append(genBigFrame(r), wellFormedArray(r)...)
+		ops = append(ops, "parse "+hlib.Hex(g)+" "+delivery(r, len(g)))
 	}
 	// a few streams also go to the real server over TCP (does the process survive?)
 	if connBudget > 0 && r.Chance(4) {
@@ -396,11 +468,78 @@ func c29Expiry(r *hlib.Rand) []string {
 // the int64 boundary set: stored values and deltas of INCRBY/DECRBY pairs are drawn from it
 var c29Boundary = []string{"-9223372036854775808", "-9223372036854775807", "-1", "0", "1", "9223372036854775806", "9223372036854775807"}
 
+// genPipe: small commands written back to back in chosen pieces: a few (cut anywhere, even byte by
+// byte), more than 4 KiB, or more than 64 KiB of them
+func genPipe(r *hlib.Rand, tier string) string {
+	n := 2 + r.Intn(6)
+	switch x := r.Intn(100); {
+	case x < 45:
+		n = 150 + r.Intn(200)
+	case x < 49:
+		n = 2500 + r.Intn(1000)
+	}
+	var cmds []string
+	total := 0
+	// long pipelines spread their writes over 48 keys: the engine throttles a key after 128
+	// consecutive writes ("hot key write throttled"), which is outside this property
+	pk := func() string {
+		if n <= 50 {
+			return hlib.Hex(hlib.Pick(r, c29Keys))
+		}
+		return hx(fmt.Sprintf("p%d", r.Intn(48)))
+	}
+	for i := 0; i < n; i++ {
+		k := pk()
+		var parts []string
+		switch r.Intn(7) {
+		case 0, 1:
+			parts = []string{hx("SET"), k, hx(fmt.Sprintf("val%d", i))}
+		case 2:
+			parts = []string{hx("GET"), k}
+		case 3:
+			parts = []string{hx("INCRBY"), k, hx(hlib.Pick(r, []string{"1", "-1", "7", "abc"}))}
+		case 4:
+			parts = []string{hx("EXISTS"), k, pk()}
+		case 5:
+			parts = []string{hx("MGET"), k, pk()}
+		default:
+			parts = []string{hx("SET"), k, hx(strconv.Itoa(i)), hx("NX")}
+		}
+		for _, p := range parts {
+			total += len(p)/2 + 8
+		}
+		cmds = append(cmds, strings.Join(parts, ","))
+	}
+	return "pipe " + delivery(r, total) + " " + strings.Join(cmds, ";")
+}
+
 func genC29(r *hlib.Rand, tier string) []string {
 	n := 8 + r.Intn(33)
 	var ops []string
 	add := func(parts ...string) { ops = append(ops, "cmd "+strings.Join(parts, " ")) }
 	for i := 0; i < n; i++ {
+		if r.Chance(5) {
+			// small early arguments, a 6000-byte last one (larger than the connection's read buffer)
+			k := hlib.Hex(hlib.Pick(r, c29Keys))
+			add(hx("SET"), k, hlib.Hex(filler(6000, r.Intn(26))))
+			add(hx("GET"), k)
+			continue
+		}
+		if r.Chance(4) {
+			// an MSET whose pairs add up to more than 4 KiB (at most 40 pairs: the engine refuses
+			// transactions of 64 writes or more, "Txn is too big", which is outside this property)
+			parts := []string{hx("MSET")}
+			for j, m := 0, 30+r.Intn(11); j < m; j++ {
+				parts = append(parts, hlib.Hex(hlib.Pick(r, c29Keys)), hlib.Hex(filler(140+r.Intn(80), j)))
+			}
+			add(parts...)
+			add(hx("MGET"), hlib.Hex(c29Keys[0]), hlib.Hex(c29Keys[1]), hlib.Hex(c29Keys[2]))
+			continue
+		}
+		if r.Chance(3) {
+			ops = append(ops, genPipe(r, tier))
+			continue
+		}
 		if r.Chance(18) {
 			// boundary pair: a key holding a value at an int64 limit, then INCRBY/DECRBY by a delta at a limit
 			k := hlib.Hex(hlib.Pick(r, c29Keys))
